@@ -16,13 +16,15 @@ def classify(c):
 def main(tier, seed, replay):
     return run_check(
         "C15", tier, seed, replay,
-        tables=["TablesUrl"],
+        tables=["TablesUrl", "TablesTunnel"],
         model_targets=["Http/UrlModel.vo", "Http/Url.vo", "Http/UrlEnc.vo", "Corr/C15Corr.vo"],
         prop_module="Props.C15",
         driver="c15",
-        corr_name="corr:request-url (model new_request_url vs the URL of the *http.Request built by the real client: String(), "
-                  "EscapedPath(), RawQuery, ForceQuery, Scheme, Host, Path; plus the oracle's grammar predicate and context "
-                  "specification re-evaluated in Coq)",
+        corr_name="corr:request-url (model new_request_url_t - formatQueryUrl + the URL part of newRequest, tunnelling branch included - vs "
+                  "the URL of the *http.Request built by the real client: String(), EscapedPath(), RawQuery, ForceQuery, Scheme, Host, "
+                  "Path; requests are issued in histories on long-lived clients and EVERY request of a history is compared with the "
+                  "model's URL for that request alone; plus the oracle's grammar predicate, context specification and tunnelling test "
+                  "re-evaluated in Coq)",
         trusted=[
             "modelled, not verified: net/url of the installed toolchain (go1.23: Parse, setPath, EscapedPath, validEncoded, "
             "shouldEscape, unescape, escape, String, RequestURI) and the URL handling of net/http.NewRequestWithContext "
@@ -30,8 +32,16 @@ def main(tier, seed, replay):
             "opaque URLs and fragments are outside the model (answered as an explicit 'unmodelled' error, never guessed)",
             "the ROR2 path / query writers are represented by their output alphabets (tables re-read by the translator + the "
             "structural bytes they emit); that the writers emit nothing else is C03/C01's concern",
-            "the hostname resolver is SimpleHostnameResolver-like: it returns a *url.URL as url.Parse produces it "
-            "(mk_base: Path/RawPath as setPath stores them, no userinfo, no opaque part)",
+            "the hostname resolver returns a *url.URL as url.Parse produces it (mk_base: Path/RawPath as setPath stores them, no "
+            "userinfo, no opaque part); driven: the real SimpleHostnameResolver (one *url.URL for the client's lifetime), a table "
+            "resolver (one long-lived *url.URL per base, several bases behind one client), a resolver answering a fresh "
+            "*url.URL per request, and the client's HostnameResolver field replaced between requests",
+            "the client of the model is its configuration (tunnelling threshold) - Http/Url.v client_urls: that newRequest / "
+            "formatQueryUrl keep nothing between requests is a reading of the source, validated on every run by issuing every "
+            "request after a history AND on a brand-new client (oracle signature history-dependent) and by the per-request "
+            "correspondence; histories are finite (quick: up to 5 earlier requests in the sweeps, ~20 in the foreign-input block)",
+            "tunnelled requests: method, headers and body are C14's; C15 checks and models the URL only (u.RawQuery = \"\" on the "
+            "joined URL; the threshold test is the translator's transcription in Gen/TablesTunnel.v, one per module generation)",
         ],
         assume=[
             "base URL in the context grammar: lower-case scheme or none, reg-name[:port] host or none, context path "
